@@ -492,6 +492,48 @@ func c16CheckStreamModes(stream, wantArr, wantEach string, n int, dir string, sh
 	if over.Status != 5 || over.Stdout != "" {
 		return fmt.Sprintf("input past the end: status %d stdout %q, want an error", over.Status, over.Stdout)
 	}
+	// a bounded draw takes exactly that many values: what is left is still there for the next inputs
+	ds := strings.Split(strings.TrimRight(wantEach, "\n"), "\n")
+	if wantEach == "" {
+		ds = nil
+	}
+	arr := func(xs []string) string { return "[" + strings.Join(xs, ",") + "]" }
+	for k := 0; k <= n; k++ {
+		for _, form := range []string{"[limit(%d; inputs)], [inputs]", "[limit(%d; repeat(input))], [inputs]", "[foreach range(%d) as $i (null; input)], [inputs]", "[range(%d) | input], [inputs]"} {
+			q := fmt.Sprintf(form, k)
+			r := RunCLIString([]string{"-c", "-n", q}, stream)
+			want := arr(ds[:k]) + "\n" + arr(ds[k:]) + "\n"
+			if r.Status != 0 || r.Stdout != want {
+				return fmt.Sprintf("-n %s gives %q (status %d), want %q", q, r.Stdout, r.Status, want)
+			}
+		}
+	}
+	if n >= 1 {
+		for q, want := range map[string]string{
+			"first(inputs), [inputs]":                         ds[0] + "\n" + arr(ds[1:]) + "\n",
+			"isempty(inputs), [inputs]":                       "false\n" + arr(ds[1:]) + "\n",
+			"[limit(1; inputs)], [limit(1; inputs)] | length": "1\n" + map[bool]string{true: "1", false: "0"}[n >= 2] + "\n",
+			"label $l | (inputs | ., break $l), [inputs]":     ds[0] + "\n",
+			"nth(0; inputs), [inputs]":                        ds[0] + "\n" + arr(ds[1:]) + "\n",
+		} {
+			if strings.HasPrefix(q, "label") {
+				continue // break leaves the whole expression: nothing after it is specified here
+			}
+			r := RunCLIString([]string{"-c", "-n", q}, stream)
+			if r.Status != 0 || r.Stdout != want {
+				return fmt.Sprintf("-n %s gives %q (status %d), want %q", q, r.Stdout, r.Status, want)
+			}
+		}
+		// without -n: the main loop takes one value, the program draws one more
+		r := RunCLIString([]string{"-c", "[., limit(1; inputs)]"}, stream)
+		var want strings.Builder
+		for i := 0; i < n; i += 2 {
+			want.WriteString(arr(ds[i:min(i+2, n)]) + "\n")
+		}
+		if r.Status != 0 || r.Stdout != want.String() {
+			return fmt.Sprintf("[., limit(1; inputs)] gives %q (status %d), want %q", r.Stdout, r.Status, want.String())
+		}
+	}
 	// without -n the main loop and input share the stream: [., input] pairs
 	if n == 2 {
 		p := RunCLIString([]string{"-c", "[., input]"}, stream)
@@ -673,9 +715,9 @@ var _ = univ.Equal
 
 func init() {
 	engine.Register(&engine.Check{
-		ID:    "C16",
-		Level: "fault_enumeration",
-		Rule: "every JSON document of a shape grammar (depth <= 2, thorough also depth 3 over a representative subset of the depth-2 documents; width <= 2; 4 scalar kinds; duplicate-free objects over 3 keys in both key orders; empty containers at every position) in 4 white-space styles is streamed: --stream events must equal the reference tostream of the document in document order, fromstream must rebuild it, tostream must agree up to key order; EVERY truncation byte of every document <= 60 bytes under --stream (events emitted are a prefix of the full event list, monotone in the cut, followed by exactly one error), default and -s modes; streams of 1..3 documents x separators x 8 read-chunk patterns (1, 7, 512, 4096, 16383, 16384, 16385, all): -s . = -n [inputs], order and exactly-once consumption by input/inputs, input past the end, every split over files and stdin, a malformed document after the valid ones; -R/-Rs/-Rn over texts incl. lines of 4095/4096/5000/70000 bytes x chunk patterns; --arg/--argjson/--slurpfile/--rawfile/--args/--jsonargs bindings incl. the same name bound twice within and across flag kinds, and every binding under 11 input-mode combinations (-n, -s, -R, -R -s, --stream, --stream -s, --yaml-input ...); -f file.",
+		ID:             "C16",
+		Level:          "fault_enumeration",
+		Rule:           "every JSON document of a shape grammar (depth <= 2, thorough also depth 3 over a representative subset of the depth-2 documents; width <= 2; 4 scalar kinds; duplicate-free objects over 3 keys in both key orders; empty containers at every position) in 4 white-space styles is streamed: --stream events must equal the reference tostream of the document in document order, fromstream must rebuild it, tostream must agree up to key order; EVERY truncation byte of every document <= 60 bytes under --stream (events emitted are a prefix of the full event list, monotone in the cut, followed by exactly one error), default and -s modes; streams of 1..3 documents x separators x 8 read-chunk patterns (1, 7, 512, 4096, 16383, 16384, 16385, all): -s . = -n [inputs], order and exactly-once consumption by input/inputs, bounded draws (limit(k; inputs), first, isempty, nth, range(k)|input) followed by the rest, input past the end, every split over files and stdin, a malformed document after the valid ones; -R/-Rs/-Rn over texts incl. lines of 4095/4096/5000/70000 bytes x chunk patterns; --arg/--argjson/--slurpfile/--rawfile/--args/--jsonargs bindings incl. the same name bound twice within and across flag kinds, and every binding under 11 input-mode combinations (-n, -s, -R, -R -s, --stream, --stream -s, --yaml-input ...); -f file.",
 		Assume:         []string{"the in-process driver (hook VerifRun) with a chunked, non-seekable reader stands for a pipe; encoding/json parses the expected values"},
 		Run:            c16Run,
 		Replay:         c16Replay,
